@@ -30,6 +30,9 @@ NUM = (N, I, R)
 #  ('cint',a,l,u) ('oint',a,l,u)  a Mem real_closed_interval l u / real_open_interval l u
 #  ('ofint',a) ('pow',ty,a,n)     constructs z3wrapper.convert does not support
 #  ('feq',f,g,dom,cod)            equation between two function variables
+#  ('sqrt',a) ('log',a) ('exp',a)  SymPy stream only
+#  ('all'|'ex',iname,ty,body,stored)  binder whose holpy term stores the name `stored`; `iname` is
+#                                  unique inside the goal and only used for scoping in this AST
 # ---------------------------------------------------------------------------------------------
 
 
@@ -99,10 +102,18 @@ class Holpy:
             return T.Eq(tm(a[2]), tm(a[3]))
         if k == "ite":
             return self.logic.mk_if(tm(a[2]), tm(a[3]), tm(a[4]))
-        if k == "all":
-            return T.Forall(T.Var(a[1], self.ty(a[2])), tm(a[3]))
-        if k == "ex":
-            return T.Exists(T.Var(a[1], self.ty(a[2])), tm(a[3]))
+        if k in ("all", "ex"):
+            ty = self.ty(a[2])
+            if len(a) == 5:
+                # de Bruijn term built directly: a[1] only scopes inside this AST, the binder of
+                # the holpy term stores the name a[4] (equal stored names at nested binders arise by
+                # beta-reduction; Forall/Exists could not build them: they abstract by name)
+                body = tm(a[3]).abstract_over(T.Var(a[1], ty))
+                q = T.forall(ty) if k == "all" else T.exists(ty)
+                return q(T.Abs(a[4], ty, body))
+            if k == "all":
+                return T.Forall(T.Var(a[1], ty), tm(a[3]))
+            return T.Exists(T.Var(a[1], ty), tm(a[3]))
         if k in ("add", "sub", "mul"):
             op = {"add": T.plus, "sub": T.minus, "mul": T.times}[k]
             return op(self.ty(a[1]))(tm(a[2]), tm(a[3]))
@@ -133,10 +144,78 @@ class Holpy:
             c = T.Const("real_closed_interval" if k == "cint" else "real_open_interval",
                         Ty.TFun(Ty.RealType, Ty.RealType, self.hset.setT(Ty.RealType)))
             return self.hset.mk_mem(tm(a[1]), c(tm(a[2]), tm(a[3])))
+        if k == "memx":
+            return self.hset.mk_mem(tm(a[1]), self.setterm(a[2]))
+        if k == "subset":
+            return self.hset.mk_subset(self.setterm(a[1]), self.setterm(a[2]))
+        if k == "seteq":
+            return T.Eq(self.setterm(a[1]), self.setterm(a[2]))
+        if k in ("sqrt", "log", "exp"):
+            return T.Const(k, Ty.TFun(Ty.RealType, Ty.RealType))(tm(a[1]))
         if k == "feq":
             fT = Ty.TFun(self.ty(a[3]), self.ty(a[4]))
             return T.Eq(T.Var(a[1], fT), T.Var(a[2], fT))
         raise ValueError(a)
+
+
+def sdom(se):
+    """element type of a set expression"""
+    k = se[0]
+    if k in ("svar",):
+        return se[2]
+    if k in ("empty", "univ"):
+        return se[1]
+    if k == "insert":
+        return sdom(se[2])
+    return sdom(se[1])
+
+
+def _setterm(self, se):
+    T, Ty, hs = self.T, self.Ty, self.hset
+    k = se[0]
+    if k == "svar":
+        return T.Var(se[1], hs.setT(self.ty(se[2])))
+    if k == "empty":
+        return hs.empty_set(self.ty(se[1]))
+    if k == "univ":
+        return hs.univ(self.ty(se[1]))
+    if k == "insert":
+        return hs.mk_insert(self.term(se[1]), _setterm(self, se[2]))
+    A, B_ = _setterm(self, se[1]), _setterm(self, se[2])
+    if k == "union":
+        return hs.mk_union(A, B_)
+    if k == "inter":
+        return hs.mk_inter(A, B_)
+    if k == "sdiff":
+        sT = hs.setT(self.ty(sdom(se)))
+        return T.Const("diff", Ty.TFun(sT, sT, sT))(A, B_)
+    raise ValueError(se)
+
+
+Holpy.setterm = _setterm
+
+
+def desugar_mem(x, se):
+    k = se[0]
+    if k == "svar":
+        return ("mem", x, se[1], se[2])
+    if k == "empty":
+        return ("ff",)
+    if k == "univ":
+        return ("tt",)
+    if k == "insert":
+        return ("or", ("eq", sdom(se), x, oracle_view(se[1])), desugar_mem(x, se[2]))
+    a, b = desugar_mem(x, se[1]), desugar_mem(x, se[2])
+    if k == "union":
+        return ("or", a, b)
+    if k == "inter":
+        return ("and", a, b)
+    if k == "sdiff":
+        return ("and", a, ("not", b))
+    raise ValueError(se)
+
+
+_fresh = [0]
 
 
 # ---------------------------------------------------------------------------------------------
@@ -180,6 +259,68 @@ def k_and(a, b):
 
 def k_or(a, b):
     return k_not(k_and(k_not(a), k_not(b)))
+
+
+class Inexact(Exception):
+    """the exact evaluator cannot give the value (irrational)"""
+
+
+def isqrt_exact(n):
+    import math
+    r = math.isqrt(n)
+    return r if r * r == n else None
+
+
+def evn(a, v, mp, margin):
+    """Numeric evaluation (mpmath, 50 digits) of the real fragment of the SymPy stream; comparisons
+    answer True/False only outside `margin`, else None."""
+    k = a[0]
+    e = lambda t: evn(t, v, mp, margin)
+    if k == "var":
+        f = Fraction(v.vars[(a[1], a[2])])
+        return mp.mpf(f.numerator) / f.denominator
+    if k == "num":
+        return mp.mpf(a[2]) / a[3]
+    if k in ("add", "sub", "mul"):
+        x, y = e(a[2]), e(a[3])
+        if k == "add":
+            return x + y
+        if k == "mul":
+            return x * y
+        return max(x - y, mp.mpf(0)) if a[1] == N else x - y
+    if k == "div":
+        x, y = e(a[1]), e(a[2])
+        if abs(y) < margin:
+            if y == 0:
+                return mp.mpf(0)
+            raise Inexact()
+        return x / y
+    if k == "neg":
+        return -e(a[2])
+    if k == "abs":
+        return abs(e(a[2]))
+    if k == "pow":
+        return e(a[2]) ** a[3]
+    if k == "sqrt":
+        x = e(a[1])
+        return mp.sqrt(abs(x)) * (1 if x >= 0 else -1)
+    if k == "exp":
+        return mp.exp(e(a[1]))
+    if k == "log":
+        x = e(a[1])
+        if abs(x) < margin and x != 0:
+            raise Inexact()
+        return mp.log(x) if x > 0 else mp.mpf(getattr(v, "log0", 0))
+    if k in ("le", "lt", "ge", "gt", "eq"):
+        x, y = e(a[2]), e(a[3])
+        if abs(x - y) < margin:
+            return None
+        return {"le": x < y, "lt": x < y, "ge": x > y, "gt": x > y, "eq": False}[k]
+    if k == "not":
+        return k_not(e(a[1]))
+    if k in ("cint", "oint"):
+        return None
+    raise Inexact()
 
 
 def hdiv(a, b):
@@ -271,6 +412,31 @@ def ev(a, v, env=()):
     if k == "pow":
         x = ev(a[2], v, env)
         return None if x is None else x ** a[3]
+    if k == "sqrt":
+        # total in the HOL library: sqrt x = (SOME y. sgn y = sgn x ∧ y ^ 2 = abs x), i.e. sgn(x) * sqrt |x|
+        x = Fraction(ev(a[1], v, env))
+        n, d = isqrt_exact(abs(x.numerator)), isqrt_exact(x.denominator)
+        if n is None or d is None:
+            raise Inexact()
+        return Fraction(n, d) * (1 if x >= 0 else -1)
+    if k == "exp":
+        if a[1][0] == "log":
+            t = ev(a[1][1], v, env)
+            if t > 0:
+                return Fraction(t)
+        x = ev(a[1], v, env)
+        if x == 0:
+            return Fraction(1)
+        raise Inexact()
+    if k == "log":
+        if a[1][0] == "exp":
+            return Fraction(ev(a[1][1], v, env))
+        x = ev(a[1], v, env)
+        if x <= 0:
+            return Fraction(getattr(v, "log0", 0))     # unspecified off the domain: any value
+        if x == 1:
+            return Fraction(0)
+        raise Inexact()
     if k == "app":
         x = ev(a[4], v, env)
         return None if x is None else v.funs[(a[1], a[2], a[3])](x)
@@ -331,16 +497,36 @@ def size(a):
 # ---------------------------------------------------------------------------------------------
 # Independent guard-correct encoding into Z3 (own names; nothing shared with z3wrapper.convert).
 # ---------------------------------------------------------------------------------------------
+def int_valued_reals(a):
+    """True when every real-typed subterm of the goal is integer valued by construction (of_nat /
+    of_int of integer terms, integer literals, + - * max min abs if): such a goal can be encoded
+    over Int alone, which Z3 decides far more often than the mixed Int/Real encoding."""
+    k = a[0]
+    if k in ("var", "all", "ex") and a[2] == R:
+        return False
+    if k in ("div", "cint", "oint"):
+        return False
+    if k == "num" and a[1] == R and a[3] != 1:
+        return False
+    if k == "app" and R in (a[2], a[3]):
+        return False
+    if k in ("mem", "feq") and R in a[1:]:
+        return False
+    return all(int_valued_reals(x) for x in a[1:] if isinstance(x, tuple))
+
+
 class Enc:
-    def __init__(self, z3):
+    def __init__(self, z3, real_as_int=False):
         self.z3 = z3
         self.A = z3.DeclareSort("Aorc")
         self.n = 0
         self.side = []
+        self.real_as_int = real_as_int      # only for goals with int_valued_reals
 
     def sort(self, ty):
         z3 = self.z3
-        return {B: z3.BoolSort(), N: z3.IntSort(), I: z3.IntSort(), R: z3.RealSort(), A: self.A}[ty]
+        real = z3.IntSort() if self.real_as_int else z3.RealSort()
+        return {B: z3.BoolSort(), N: z3.IntSort(), I: z3.IntSort(), R: real, A: self.A}[ty]
 
     def const(self, name, ty):
         return self.z3.Const("o_%s_%s" % (name, ty), self.sort(ty))
@@ -353,6 +539,10 @@ class Enc:
 
     def lit(self, ty, p, q):
         z3 = self.z3
+        if ty == R and self.real_as_int:
+            if q != 1:
+                raise ValueError("fraction in the integer encoding")
+            return z3.IntVal(p)
         return z3.RealVal("%d/%d" % (p, q)) if ty == R else z3.IntVal(p)
 
     def enc(self, a, env=()):
@@ -401,6 +591,8 @@ class Enc:
                 return x * y
             return z3.If(x - y >= 0, x - y, z3.IntVal(0)) if a[1] == N else x - y
         if k == "div":
+            if self.real_as_int:
+                raise ValueError("division in the integer encoding")
             x, y = e(a[1]), e(a[2])
             return z3.If(y == 0, z3.RealVal(0), x / y)
         if k == "neg":
@@ -409,7 +601,7 @@ class Enc:
             x, y = e(a[2]), e(a[3])
             return {"le": x <= y, "lt": x < y, "ge": x >= y, "gt": x > y}[k]
         if k in ("ofnat", "ofint"):
-            return z3.ToReal(e(a[1]))
+            return e(a[1]) if self.real_as_int else z3.ToReal(e(a[1]))
         if k == "pow":
             x = e(a[2])
             r = self.lit(a[1], 1, 1)
@@ -737,6 +929,47 @@ class G:
             lambda: ("eq", N, sub(num(N, 2), num(N, 3)), Z0),
             lambda: ("not", ("eq", N, sub(num(N, 2), num(N, 3)), Z0)),
             lambda: ("ge", N, ("app", "f", N, N, sub(s1, s2)), Z0),
+            # --- set operations (norm_term rewrites them away before convert) and bool-domain functions
+            lambda: (lambda d, x_, A_, B_: r.choice([
+                ("iff", ("memx", x_, ("union", A_, B_)), ("or", ("memx", x_, A_), ("memx", x_, B_))),
+                ("imp", ("memx", x_, ("inter", A_, B_)), ("memx", x_, A_)),
+                ("imp", ("memx", x_, A_), ("memx", x_, ("inter", A_, B_))),
+                ("imp", ("subset", A_, B_), ("imp", ("memx", x_, A_), ("memx", x_, B_))),
+                ("subset", A_, ("union", A_, B_)),
+                ("subset", ("union", A_, B_), A_),
+                ("imp", ("memx", x_, ("sdiff", A_, B_)), ("and", ("memx", x_, A_), ("not", ("memx", x_, B_)))),
+                ("imp", ("memx", x_, A_), ("memx", x_, ("sdiff", A_, B_))),
+                ("seteq", ("inter", A_, B_), ("inter", B_, A_)),
+                ("seteq", ("union", A_, B_), A_),
+                ("imp", ("memx", x_, ("empty", d)), ("ff",)),
+                ("memx", x_, ("univ", d)),
+                ("not", ("memx", x_, ("univ", d))),
+                ("iff", ("memx", x_, ("insert", self.tm(d, 0), A_)), ("or", ("eq", d, x_, self.tm(d, 0)), ("memx", x_, A_))),
+                ("memx", x_, ("insert", x_, A_)),
+                ("memx", x_, ("insert", self.tm(d, 1), ("empty", d))),
+                ("imp", ("seteq", A_, ("empty", d)), ("not", ("memx", x_, A_))),
+                ("imp", ("all", bn, N, ("memx", bv, ("svar", "S", N))), ("seteq", ("svar", "S", N), ("univ", N))),
+                ("imp", ("seteq", ("svar", "S", N), ("univ", N)), ("memx", sub(s1, s2), ("svar", "S", N))),
+                ("imp", ("subset", ("univ", N), ("svar", "S", N)), ("memx", sub(s1, s2), ("svar", "S", N))),
+                ("seteq", ("sdiff", A_, A_), ("empty", d)),
+                ("subset", ("insert", self.tm(d, 0), A_), A_),
+            ]))(*(lambda d: (d, self.tm(d, 1), ("svar", SETS[d], d), ("svar", SETS[d] + "2", d)))(r.choice([N, N, R, A, I]))),
+            lambda: ("imp", ("eq", N, ("app", "fb", B, N, self.atom(1)), Z1), ("ge", N, ("app", "fb", B, N, self.atom(1)), Z0)),
+            lambda: (lambda c_: ("eq", N, ("app", "fb", B, N, c_), ("app", "fb", B, N, ("not", ("not", c_)))))(self.atom(1)),
+            lambda: ("eq", N, ("app", "fb", B, N, ("lt", N, num(N, 1), num(N, 2))), ("app", "fb", B, N, ("tt",))),
+            lambda: ("eq", N, ("app", "fb", B, N, ("lt", N, num(N, 1), num(N, 2))), ("app", "fb", B, N, ("ff",))),
+            lambda: ("ge", N, ("app", "fb", B, N, self.atom(1)), Z0),
+            # --- unary minus on nat (declared, unspecified): nothing about it may be proved
+            lambda: ("imp", ("gt", N, s1, Z0), ("lt", N, ("neg", N, s1), Z0)),
+            lambda: ("ge", N, ("neg", N, s1), Z0),
+            lambda: ("eq", N, ("add", N, ("neg", N, s1), s1), Z0),
+            lambda: ("eq", N, ("neg", N, s1), Z0),
+            lambda: ("le", N, ("neg", N, s1), s1),
+            lambda: ("eq", N, ("neg", N, ("neg", N, s1)), s1),
+            lambda: ("imp", ("eq", N, s1, s2), ("eq", N, ("neg", N, s1), ("neg", N, s2))),
+            lambda: ("all", bn, N, ("le", N, ("neg", N, bv), Z0)),
+            lambda: ("ex", bn, N, ("lt", N, ("neg", N, bv), Z0)),
+            lambda: ("eq", R, ("ofnat", ("neg", N, s1)), ("neg", R, ("ofnat", s1))),
             # --- nat variables and terms are non-negative
             lambda: ("ge", N, s1, Z0),
             lambda: ("ge", N, ("mul", N, s1, s2), Z0),
@@ -869,6 +1102,104 @@ class G:
         ]
         return r.choice(fams)()
 
+    # ---- directed families: nested binders with EQUAL stored names (de Bruijn terms as they
+    #      arise by beta-reduction), and of_nat / of_int of variables bound by ! and ? under
+    #      quantifier alternation.  Closed or nearly closed goals; validity decided by the oracles.
+    def pol(self, g):
+        return self.r.choice([g, g, ("not", g), ("imp", g, ("ff",)), ("imp", ("not", g), ("ff",)), ("not", ("not", g)),
+                              ("or", g, ("ff",)), ("imp", ("tt",), g)])
+
+    def relat(self, ty, a, b):
+        op = self.r.choice(["le", "lt", "ge", "gt", "eq", "ne", "le", "ge"])
+        return ("not", ("eq", ty, a, b)) if op == "ne" else (op, ty, a, b)
+
+    def same_name_binders(self):
+        r = self.r
+        ty = r.choice([N, N, I, R])
+        stored = r.choice(["x", "n", "a", "i", "y"])          # some are also free variables of other goals
+        o, i, j = ("var", "o#", ty), ("var", "i#", ty), ("var", "j#", ty)
+        q = lambda: r.choice(["all", "ex"])
+        lit = self.lit(ty)
+        shape = r.randint(0, 5)
+        if shape == 0:
+            g = (q(), "o#", ty, (q(), "i#", ty, self.relat(ty, i, o), stored), stored)
+        elif shape == 1:
+            inner = (q(), "i#", ty, self.relat(ty, i, o), stored)
+            g = (q(), "o#", ty, (r.choice(["and", "imp", "or"]), self.relat(ty, o, lit), inner), stored)
+        elif shape == 2:
+            g = (q(), "o#", ty, (q(), "i#", ty, (q(), "j#", ty,
+                 (r.choice(["and", "or", "imp"]), self.relat(ty, i, o), self.relat(ty, j, i)), stored), stored), stored)
+        elif shape == 3:
+            fv = ("var", stored, ty)
+            g = (q(), "o#", ty, (q(), "i#", ty, (r.choice(["and", "or"]), self.relat(ty, i, o), self.relat(ty, o, fv)), stored), stored)
+        elif shape == 4:
+            # the classic: ?x. !x. B0 <= B1  /  !x. ?x. B1 < B0
+            g = r.choice([("ex", "o#", ty, ("all", "i#", ty, ("le", ty, i, o), stored), stored),
+                          ("all", "o#", ty, ("ex", "i#", ty, ("lt", ty, o, i), stored), stored),
+                          ("ex", "o#", ty, ("ex", "i#", ty, ("lt", ty, i, o), stored), stored),
+                          ("ex", "o#", ty, ("all", "i#", ty, ("eq", ty, i, o), stored), stored),
+                          ("all", "o#", ty, ("all", "i#", ty, ("le", ty, i, o), stored), stored)])
+        else:
+            inner = (q(), "i#", ty, self.relat(ty, ("add", ty, i, lit), o), stored)
+            g = (q(), "o#", ty, ("not", inner), stored)
+        return self.pol(g)
+
+    def ofnat_bound(self):
+        r = self.r
+        m, n, a = ("var", "m", N), ("var", "n", N), ("var", "a", R)
+        on = lambda t: ("ofnat", t)
+        k = num(R, r.choice([1, 2, 3]))
+        half = num(R, Fraction(1, 2))
+        fams = [
+            lambda: ("all", "m", N, ("ex", "n", N, ("gt", R, on(n), on(m)))),
+            lambda: ("ex", "n", N, ("all", "m", N, ("le", R, on(m), on(n)))),
+            lambda: ("all", "m", N, ("ex", "n", N, ("eq", R, on(n), ("add", R, on(m), num(R, 1))))),
+            lambda: ("all", "m", N, ("ex", "n", N, ("lt", R, on(n), on(m)))),
+            lambda: ("all", "a", R, ("ex", "n", N, ("lt", R, a, on(n)))),
+            lambda: ("ex", "a", R, ("all", "n", N, ("ge", R, a, on(n)))),
+            lambda: ("all", "a", R, ("imp", ("and", ("le", R, num(R, 0), a), ("lt", R, a, k)),
+                                      ("ex", "n", N, ("and", ("lt", R, a, on(n)), ("le", R, on(n), ("add", R, a, num(R, 1))))))),
+            lambda: ("all", "a", R, ("imp", ("lt", R, a, k), ("ex", "n", N, ("lt", R, a, on(n))))),
+            lambda: ("ex", "n", N, ("or", ("and", ("lt", R, on(n), num(R, 1)), ("eq", N, n, num(N, 1))),
+                                          ("and", ("ge", R, on(n), num(R, 1)), ("eq", N, n, num(N, 0))))),
+            lambda: ("all", "n", N, ("or", ("and", ("lt", R, on(n), num(R, 1)), ("eq", N, n, num(N, 0))),
+                                           ("and", ("ge", R, on(n), num(R, 1)), ("ge", N, n, num(N, 1))))),
+            lambda: ("all", "m", N, ("ex", "n", N, ("and", ("eq", N, n, m), ("not", ("eq", R, on(n), on(("max", N, n, m))))))),
+            lambda: ("all", "m", N, ("ex", "n", N, ("and", ("eq", N, n, m), ("eq", R, on(n), on(("max", N, n, m)))))),
+            lambda: ("ex", "n", N, ("eq", R, on(n), on(("var", "x", N)))),
+            lambda: ("ex", "n", N, ("and", ("eq", R, on(n), on(("var", "x", N))), ("not", ("eq", N, n, ("var", "x", N))))),
+            lambda: ("all", "n", N, ("ge", R, on(n), num(R, 0))),
+            lambda: ("ex", "n", N, ("lt", R, on(n), num(R, 0))),
+            lambda: ("ex", "n", N, ("eq", R, on(n), half)),
+            lambda: ("all", "m", N, ("ex", "n", N, ("and", ("lt", R, on(m), ("add", R, on(n), half)), ("lt", R, on(n), ("add", R, on(m), half))))),
+            lambda: ("ex", "n", N, ("all", "m", N, ("imp", ("lt", R, on(m), on(n)), ("eq", N, m, num(N, 0))))),
+            lambda: ("all", "m", N, ("ex", "n", N, ("eq", R, ("mul", R, num(R, 2), on(n)), ("add", R, on(m), on(m))))),
+            lambda: ("all", "a", R, ("ex", "n", N, ("ex", "m", N, ("lt", R, ("sub", R, on(m), on(n)), a)))),
+            # of_int: untranslatable, the step must fail unless the rest is contradictory
+            lambda: ("ex", "i", I, ("lt", R, ("ofint", ("var", "i", I)), num(R, 0))),
+            lambda: ("all", "i", I, ("ge", R, ("ofint", ("var", "i", I)), num(R, 0))),
+            lambda: ("imp", ("ex", "i", I, ("eq", R, ("ofint", ("var", "i", I)), half)), ("ff",)),
+            lambda: ("all", "i", I, ("ex", "n", N, ("le", R, ("ofint", ("var", "i", I)), on(n)))),
+            lambda: ("ex", "n", N, ("all", "i", I, ("le", R, ("ofint", ("var", "i", I)), on(n)))),
+        ]
+        if r.random() < 0.3:
+            # random prefix / random body over of_nat of the bound variables
+            vs = [("m", N), ("n", N)] if r.random() < 0.7 else [("a", R), ("n", N)]
+            tm = lambda v: ("var", v[0], v[1]) if v[1] == R else on(("var", v[0], N))
+            t1 = r.choice([tm(vs[0]), ("add", R, tm(vs[0]), self.lit(R)), ("mul", R, num(R, 2), tm(vs[0]))])
+            t2 = r.choice([tm(vs[1]), ("add", R, tm(vs[1]), self.lit(R))])
+            body = self.relat(R, t2, t1)
+            if r.random() < 0.4:
+                body = (r.choice(["and", "or", "imp"]), body, self.relat(R, tm(vs[1]), self.lit(R)))
+            g = body
+            for v in reversed(vs if r.random() < 0.5 else vs[::-1]):
+                g = (r.choice(["all", "ex"]), v[0], v[1], g)
+            return self.pol(g)
+        return self.pol(r.choice(fams)())
+
+    def directed(self):
+        return self.same_name_binders() if self.r.random() < 0.5 else self.ofnat_bound()
+
     def wrap(self, g):
         """Place a goal at varying polarity / under propositional structure."""
         r = self.r
@@ -935,10 +1266,31 @@ def call_z3(H, goal, via_macro, limit=60):
     return res, flag_ok
 
 
+def oracle_view(a):
+    """uminus :: 'a => 'a is declared at every type but specified on int and real only: on nat it
+    is an arbitrary function nat => nat.  For the oracles -t (t :: nat) is %uminus t with %uminus an
+    uninterpreted function variable."""
+    if not isinstance(a, tuple):
+        return a
+    if a[0] == "neg" and a[1] == N:
+        return ("app", "%uminus", N, N, oracle_view(a[2]))
+    if a[0] == "memx":
+        return desugar_mem(oracle_view(a[1]), a[2])
+    if a[0] in ("subset", "seteq"):
+        _fresh[0] += 1
+        nm = "e#%d" % _fresh[0]
+        dom = sdom(a[1])
+        x = ("var", nm, dom)
+        l, r = desugar_mem(x, a[1]), desugar_mem(x, a[2])
+        return ("all", nm, dom, ("imp", l, r) if a[0] == "subset" else ("iff", l, r))
+    return tuple(oracle_view(x) for x in a)
+
+
 def judge(H, goal, rng, budget):
     """Independent verdict on a goal the wrapper accepted.
     Returns ('violation', how, Val) | ('valid-by-oracle',) | ('no-countermodel-found', why)"""
     z3 = H.z3
+    goal = oracle_view(goal)
     v = brute_force(goal, rng, budget)
     if v is not None:
         return ("violation", "brute-force", v)
@@ -950,7 +1302,13 @@ def judge(H, goal, rng, budget):
         for c in enc.negated_goal(goal):
             s.add(c)
         r = str(s.check())
-    except z3.Z3Exception as e:  # noqa
+        if r not in ("sat", "unsat") and int_valued_reals(goal):
+            enc = Enc(z3, real_as_int=True)
+            s = z3.Solver()
+            for c in enc.negated_goal(goal):
+                s.add(c)
+            r = str(s.check())
+    except (z3.Z3Exception, ValueError) as e:  # noqa
         return ("no-countermodel-found", "oracle-encoding-error")
     if r == "unsat":
         return ("valid-by-oracle",)
@@ -1013,13 +1371,15 @@ def decide_closed(z3, node, v, env):
     closed = subst_vals(node, v, env)
     if closed is None:
         return None
+    modes = [False, True] if int_valued_reals(closed) else [False]
     try:
-        for want, f in ((True, ("not", closed)), (False, closed)):
-            s = z3.Solver()
-            s.add(Enc(z3).enc(f))
-            if str(s.check()) == "unsat":
-                return want
-    except z3.Z3Exception:
+        for mode in modes:
+            for want, f in ((True, ("not", closed)), (False, closed)):
+                s = z3.Solver()
+                s.add(Enc(z3, real_as_int=mode).enc(f))
+                if str(s.check()) == "unsat":
+                    return want
+    except (z3.Z3Exception, ValueError):
         return None
     return None
 
@@ -1045,7 +1405,7 @@ def z3_check_goals(ctx, H, goals, rng, label):
             ctx.log("UNCONFIRMED", H.term(goal))
         ctx.count("z3:oracle:" + verdict[0] + (":" + verdict[1] if len(verdict) > 1 and verdict[0] != "violation" else ""))
         if verdict[0] == "violation":
-            val = describe_val(goal, verdict[2])
+            val = describe_val(oracle_view(goal), verdict[2])
             ctx.violation("z3:accepts-invalid:" + canon(goal),
                           "z3wrapper %s accepts %s, which is false in HOL under %s (%s)" % ("Z3Macro.eval" if via_macro else "solve", H.term(goal), val, verdict[1]),
                           {"kind": "z3", "goal": tolist(goal), "via_macro": via_macro, "countermodel": val, "how": verdict[1]})
@@ -1094,6 +1454,132 @@ class GS:
         if op == "pow":
             return ("pow", R, s(), r.choice([2, 2, 3]))
         return (op, R, s())
+
+    def inner_quot(self):
+        """a quotient to be placed inside a divisor or a numerator"""
+        r, X = self.r, self.X
+        one = num(R, 1)
+        c = self.q([1, -1, 2, Fraction(1, 2), 0])
+        xc = ("sub", R, X, c)
+        return r.choice([
+            ("div", X, X), ("div", ("mul", R, num(R, 2), X), X), ("div", X, ("mul", R, X, X)), ("div", one, ("div", one, X)),
+            ("div", xc, xc), ("div", X, xc), ("div", ("mul", R, X, X), X), ("div", ("div", one, X), ("div", one, X)),
+            ("div", one, X), ("div", xc, X), ("div", ("abs", R, X), X), ("div", ("add", R, X, one), ("add", R, X, one)),
+            ("div", X, ("abs", R, X)), ("div", ("mul", R, X, xc), ("mul", R, X, xc)), ("div", num(R, 2), ("div", X, num(R, 3))),
+        ])
+
+    def nested_quot(self):
+        """a term with a quotient nested in a divisor and/or a numerator"""
+        r = self.r
+        one = num(R, 1)
+        q1, q2 = self.inner_quot(), self.inner_quot()
+        e = self.ex(1)
+        return r.choice([("div", one, q1), ("div", e, q1), ("div", q1, e), ("div", q1, q2), ("div", q1, q1),
+                         ("div", ("add", R, q1, e), q1), ("div", one, ("add", R, q1, one)), ("div", one, ("div", one, q1)),
+                         ("mul", R, q1, ("div", one, q1)), ("div", ("div", q1, q2), q1), ("add", R, ("div", one, q1), e)])
+
+    def nested_plain(self):
+        r = self.r
+        t = self.nested_quot()
+        one, zero = num(R, 1), num(R, 0)
+        return r.choice([
+            lambda: ("eq", R, t, one), lambda: ("eq", R, t, self.X), lambda: ("eq", R, t, t), lambda: ("eq", R, t, self.ex(1)),
+            lambda: ("not", ("eq", R, t, zero)), lambda: ("not", ("eq", R, t, self.q())), lambda: ("gt", R, t, zero),
+            lambda: ("ge", R, t, one), lambda: ("ge", R, ("abs", R, t), zero), lambda: ("le", R, t, t),
+            lambda: ("eq", R, ("sub", R, t, t), zero), lambda: ("eq", R, ("mul", R, t, zero), zero),
+        ])()
+
+    def nested_interval(self):
+        r, X = self.r, self.X
+        pool = [0, 1, -1, 2, -2, Fraction(1, 2), Fraction(-1, 2), 3]
+        l, u = sorted([Fraction(r.choice(pool)), Fraction(r.choice(pool))])
+        cond = (r.choice(["cint", "cint", "oint"]), X, num(R, l), num(R, u))
+        t = self.nested_quot()
+        one, zero = num(R, 1), num(R, 0)
+        goal = r.choice([
+            lambda: ("gt", R, t, zero), lambda: ("ge", R, t, zero), lambda: ("ge", R, t, one), lambda: ("le", R, t, one),
+            lambda: ("not", ("eq", R, t, zero)), lambda: ("not", ("eq", R, t, self.q())), lambda: ("ge", R, ("abs", R, t), zero),
+            lambda: ("gt", R, ("abs", R, t), zero), lambda: ("not", ("eq", R, ("sub", R, t, one), zero)), lambda: ("le", R, t, t),
+        ])()
+        return goal, cond
+
+    def second_var(self):
+        """(goal, cond): interval condition on x, goal mentions another variable y"""
+        r, X = self.r, self.X
+        Y = ("var", "y", R)
+        one, zero = num(R, 1), num(R, 0)
+        pool = [0, 1, -1, 2, Fraction(1, 2)]
+        l, u = sorted([Fraction(r.choice(pool)), Fraction(r.choice(pool))])
+        cond = (r.choice(["cint", "oint"]), X, num(R, l), num(R, u))
+        goal = r.choice([
+            lambda: ("ge", R, ("mul", R, ("div", one, Y), Y), one),
+            lambda: ("gt", R, ("div", Y, Y), zero),
+            lambda: ("not", ("eq", R, ("div", Y, Y), zero)),
+            lambda: ("not", ("eq", R, ("div", one, Y), zero)),
+            lambda: ("ge", R, ("mul", R, Y, Y), zero),
+            lambda: ("ge", R, ("add", R, X, ("div", Y, Y)), X),
+            lambda: ("gt", R, ("add", R, X, ("div", Y, Y)), X),
+            lambda: ("not", ("eq", R, ("mul", R, X, ("div", one, Y)), one)),
+            lambda: ("ge", R, ("div", X, ("add", R, ("mul", R, Y, Y), one)), zero),
+            lambda: ("le", R, Y, Y),
+            lambda: ("not", ("eq", R, Y, ("add", R, Y, one))),
+            lambda: ("ge", R, ("abs", R, Y), zero),
+            lambda: ("not", ("eq", R, ("sub", R, X, Y), zero)),
+            lambda: ("gt", R, ("div", one, ("sub", R, X, Y)), zero),
+            lambda: self.rel(R, ("add", R, self.ex(1), Y), self.ex(1)),
+        ])()
+        return goal, cond
+
+    def trans_plain(self):
+        r, X = self.r, self.X
+        one, zero = num(R, 1), num(R, 0)
+        c = num(R, r.choice([-1, -4, 4, 2, 0, 1, Fraction(1, 4), -9]))
+        e = r.choice([X, c, ("mul", R, X, X), ("sub", R, X, one), ("abs", R, X)])
+        return r.choice([
+            lambda: ("eq", R, ("mul", R, ("sqrt", c), ("sqrt", c)), c),
+            lambda: ("eq", R, ("mul", R, ("sqrt", e), ("sqrt", e)), e),
+            lambda: ("eq", R, ("pow", R, ("sqrt", e), 2), e),
+            lambda: ("eq", R, ("sqrt", ("mul", R, e, e)), e),
+            lambda: ("eq", R, ("sqrt", ("mul", R, e, e)), ("abs", R, e)),
+            lambda: ("eq", R, ("exp", ("log", e)), e),
+            lambda: ("eq", R, ("log", ("exp", e)), e),
+            lambda: ("eq", R, ("sqrt", num(R, 4)), num(R, 2)),
+            lambda: ("eq", R, ("sqrt", num(R, -4)), num(R, -2)),
+            lambda: ("ge", R, ("sqrt", c), zero),
+            lambda: ("ge", R, ("sqrt", num(R, 2)), one),
+            lambda: ("not", ("eq", R, ("sqrt", c), zero)),
+            lambda: ("not", ("eq", R, ("mul", R, ("sqrt", c), ("sqrt", c)), ("abs", R, c))),
+            lambda: ("gt", R, ("exp", ("log", c)), zero),
+            lambda: ("eq", R, ("exp", ("log", c)), c),
+            lambda: ("not", ("eq", R, ("log", one), one)),
+            lambda: ("eq", R, ("exp", zero), one),
+            lambda: ("ge", R, ("exp", e), zero),
+            lambda: ("eq", R, ("div", ("sqrt", e), ("sqrt", e)), one),
+        ])()
+
+    def trans_interval(self):
+        r, X = self.r, self.X
+        one, zero = num(R, 1), num(R, 0)
+        pool = [0, 1, -1, 2, 4, -4, Fraction(1, 4)]
+        l, u = sorted([Fraction(r.choice(pool)), Fraction(r.choice(pool))])
+        cond = (r.choice(["cint", "oint"]), X, num(R, l), num(R, u))
+        goal = r.choice([
+            lambda: ("ge", R, ("mul", R, ("sqrt", X), ("sqrt", X)), X),
+            lambda: ("le", R, ("mul", R, ("sqrt", X), ("sqrt", X)), X),
+            lambda: ("ge", R, ("sqrt", X), zero),
+            lambda: ("le", R, ("sqrt", X), X),
+            lambda: ("not", ("eq", R, ("sqrt", X), num(R, -1))),
+            lambda: ("not", ("eq", R, ("sub", R, ("mul", R, ("sqrt", X), ("sqrt", X)), X), one)),
+            lambda: ("gt", R, ("exp", ("log", X)), zero),
+            lambda: ("ge", R, ("exp", ("log", X)), X),
+            lambda: ("le", R, ("exp", ("log", X)), X),
+            lambda: ("not", ("eq", R, ("exp", ("log", X)), zero)),
+            lambda: ("ge", R, ("log", X), zero),
+            lambda: ("ge", R, ("exp", X), one),
+            lambda: ("gt", R, ("div", one, ("sqrt", X)), zero),
+            lambda: ("not", ("eq", R, ("div", one, ("sqrt", X)), zero)),
+        ])()
+        return goal, cond
 
     def natc(self, d):
         r = self.r
@@ -1201,11 +1687,12 @@ class GS:
         return r.choice(fams)(), cond
 
 
-def grid_points(cond):
+def grid_points(cond, small=False):
     pts = set()
-    for p in range(-48, 49):
-        for q in (1, 2, 3, 4, 6, 12):
+    for p in range(-48, 49) if not small else range(-8, 9):
+        for q in ((1, 2, 3, 4, 6, 12) if not small else (1, 2)):
             pts.add(Fraction(p, q))
+    pts |= {Fraction(x) for x in (4, -4, 9, -9, Fraction(1, 4), Fraction(-1, 4), Fraction(9, 4), Fraction(4, 9), Fraction(1, 9), 16)}
     if cond is not None:
         v0 = Val({})
         l, u = ev(cond[2], v0), ev(cond[3], v0)
@@ -1216,16 +1703,38 @@ def grid_points(cond):
     return sorted(pts)
 
 
+YGRID = [Fraction(x) for x in (0, 1, -1, 2, Fraction(1, 2), Fraction(-1, 2), -2, 4, Fraction(1, 4))]
+
+
 def sympy_counterexample(goal, cond):
-    for pt in grid_points(cond):
-        v = Val({("x", R): pt})
-        try:
-            if cond is not None and ev(cond, v) is not True:
-                continue
-            if ev(goal, v) is False:
-                return pt
-        except (ZeroDivisionError, OverflowError):
-            continue
+    """A point (within the interval condition, any value of the other variable) at which the
+    goal is false under the HOL semantics (x / 0 = 0, truncated nat subtraction, total sqrt, log
+    arbitrary off its domain): exact arithmetic where possible, else mpmath with a safety margin."""
+    import mpmath
+    mp = mpmath.mp.clone()
+    mp.dps = 50
+    margin = mp.mpf(10) ** -30
+    has_y = ("v", "y", R) in free_syms(goal)
+    has_log = has_kind(goal, ("log",))
+    for pt in grid_points(cond, small=has_y):
+        for y in (YGRID if has_y else [None]):
+            for log0 in ((0, 1) if has_log else (0,)):
+                vars_ = {("x", R): pt}
+                if has_y:
+                    vars_[("y", R)] = y
+                v = Val(vars_)
+                v.log0 = log0
+                try:
+                    if cond is not None and ev(cond, v) is not True:
+                        continue
+                    try:
+                        val = ev(goal, v)
+                    except Inexact:
+                        val = evn(goal, v, mp, margin)
+                    if val is False:
+                        return "x = %s" % pt + (", y = %s" % y if has_y else "") + (", log t = %s for t <= 0" % log0 if has_log else "")
+                except (ZeroDivisionError, OverflowError, Inexact, ValueError):
+                    continue
     return None
 
 
@@ -1257,15 +1766,37 @@ def call_sympy(H, goal, cond, mode, limit=60):
 def sympy_stage(ctx, H):
     rng = ctx.rng("sympy")
     g = GS(rng)
-    n = ctx.scale(500, 5000)
+    n = ctx.scale(650, 5000)
     nacc = 0
+    asked = []
     for idx in range(n):
-        if rng.random() < 0.5:
+        c = rng.random()
+        if c < 0.35:
             goal, cond = g.plain(), None
-        else:
+        elif c < 0.7:
             goal, cond = g.interval()
+        elif c < 0.78:
+            goal, cond = g.nested_plain(), None
+        elif c < 0.86:
+            goal, cond = g.nested_interval()
+        elif c < 0.91:
+            goal, cond = g.second_var()
+        elif c < 0.96:
+            goal, cond = g.trans_plain(), None
+        else:
+            goal, cond = g.trans_interval()
         mode = "macro" if idx % 4 == 3 else "direct"
         res = call_sympy(H, goal, cond, mode)
+        if res in ("accept", "reject") and idx % 2 == 0:
+            # the tie to the model is about the decision logic on one query: ask again with an empty cache
+            saved = dict(H.sw.solveset_cache) if hasattr(H.sw, "solveset_cache") else None
+            if saved is not None:
+                H.sw.solveset_cache.clear()
+            res0 = call_sympy(H, goal, cond, mode)
+            if saved is not None:
+                H.sw.solveset_cache.update(saved)
+            if res0 in ("accept", "reject"):
+                asked.append((goal, cond, res0))
         ctx.case(("sympy", canon(goal), canon(cond) if cond else None), nontrivial=size(goal) >= 4)
         ctx.count("sympy:%s:%s" % ("interval" if cond else "plain", res if not res.startswith("raise") else "fails-with-exception"))
         if res.startswith("raise"):
@@ -1278,12 +1809,13 @@ def sympy_stage(ctx, H):
         pt = sympy_counterexample(goal, cond)
         if pt is not None:
             ctx.violation("sympy:accepts-invalid:%s|%s" % (canon(goal), canon(cond) if cond else ""),
-                          "sympywrapper (%s) accepts %s%s, which is false in HOL at x = %s" % (
+                          "sympywrapper (%s) accepts %s%s, which is false in HOL at %s" % (
                               mode, H.term(goal), " under " + str(H.term(cond)) if cond else "", pt),
                           {"kind": "sympy", "goal": tolist(goal), "cond": tolist(cond) if cond else None, "mode": mode, "x": str(pt)})
         else:
             ctx.count("sympy:oracle:no-counterexample-on-grid")
     ctx.log("sympy stage: %d goals, %d accepted" % (n, nacc))
+    return asked
 
 
 
@@ -1336,7 +1868,7 @@ def term_to_h(H, t, depth=0):
         return ["imp", rec(t.arg1), rec(t.arg)]
     if t.is_equals():
         if is_funlike(t.arg.get_type()):
-            return "eqfun"
+            return ["eqfun", 0]
         return ["eq", rec(t.arg1), rec(t.arg)]
     if t.is_conj():
         return ["and", rec(t.arg1), rec(t.arg)]
@@ -1354,7 +1886,7 @@ def term_to_h(H, t, depth=0):
     if t.is_minus():
         return ["sub", t.arg1.get_type() == Ty.NatType, rec(t.arg1), rec(t.arg)]
     if t.is_uminus():
-        return ["neg", rec(t.arg)]
+        return ["neg", t.arg.get_type() == Ty.NatType, rec(t.arg)]
     if t.is_times():
         return ["mul", rec(t.arg1), rec(t.arg)]
     if t.is_less_eq():
@@ -1372,7 +1904,7 @@ def term_to_h(H, t, depth=0):
             if t.arg.is_var() and not t.arg.name.startswith("%b%"):
                 return ["ofnatvar", sexp.enc(t.arg.name)]
             return ["ofnat", rec(t.arg)]
-        return "unsup"
+        return ["unsup", 0]
     if t.is_comb("max", 2):
         return ["max", rec(t.arg1), rec(t.arg)]
     if t.is_comb("min", 2):
@@ -1390,15 +1922,15 @@ def term_to_h(H, t, depth=0):
             return ["app", sexp.enc(f.name), ty_sexp(H, f.T.domain_type()), ty_sexp(H, f.T.range_type()), rec(t.arg)]
         h = t.head
         if h.is_const():
-            return "unsup"
+            return ["unsup", 0]
         raise OutsideModel("application")
     if t.is_const():
         if t == T.true:
             return "tt"
         if t == T.false:
             return "ff"
-        return "unsup"
-    return "unsup"
+        return ["unsup", 0]
+    return ["unsup", 0]
 
 
 def sort_sexp(z3, s):
@@ -1454,8 +1986,23 @@ class FakeSolver:
         self.ctx = None
         self.items = []
 
-    def add(self, a):
-        self.items.append(a)
+    def add(self, *args):
+        for a in args:
+            if isinstance(a, (list, tuple)):
+                self.items.extend(a)
+            else:
+                self.items.append(a)
+
+    append = insert = assert_exprs = add
+
+    def __getattr__(self, name):
+        # anything else solve_core may start to use (push, set, ...): the tie is then unavailable,
+        # which is reported as such, never as a property failure
+        raise InterceptionUnavailable("solver method %s" % name)
+
+
+class InterceptionUnavailable(Exception):
+    pass
 
 
 def impl_solve_core(H, t, limit=60):
@@ -1463,19 +2010,21 @@ def impl_solve_core(H, t, limit=60):
     zw = H.zw
     seen = []
     first_names = []
+    if not callable(getattr(zw, "convert", None)) or not callable(getattr(zw, "solve_core", None)):
+        raise InterceptionUnavailable("z3wrapper.convert / solve_core not found")
     orig = zw.convert
 
-    def wrapped(tm, var_names, assms, to_real, ctx):
-        if not seen:
-            first_names.append(list(var_names))
+    def wrapped(tm, *args, **kw):
         seen.append(tm)
-        return orig(tm, var_names, assms, to_real, ctx)
+        return orig(tm, *args, **kw)
     zw.convert = wrapped
     s = FakeSolver()
     try:
         with time_limit(limit):
             zw.solve_core(s, t)
         res = ["ok"] + [z3_to_sexp(H.z3, a) for a in s.items]
+    except InterceptionUnavailable:
+        raise
     except zw.Z3Exception:
         res = ["error", "z3exc"]
     except Timeout:
@@ -1494,6 +2043,14 @@ def correspondence(ctx, H, goals, label):
         t = H.term(goal)
         try:
             seen, res = impl_solve_core(H, t)
+        except InterceptionUnavailable as e:
+            # a refactoring of solve_core's internals: the tie to the model cannot be observed any
+            # more; the oracle streams still judge every acceptance.  Not a property failure.
+            ctx.count("corr:%s:interception-unavailable" % label)
+            ctx.coverage["correspondence_unavailable"] = str(e)
+            if "correspondence stream unavailable (solve_core internals changed): model tie not checked this run" not in ctx.assumptions:
+                ctx.assumptions.append("correspondence stream unavailable (solve_core internals changed): model tie not checked this run")
+            return 0
         except Exception as e:  # noqa   (norm_term itself failed)
             ctx.count("corr:%s:solve_core-raises-before-convert" % label)
             continue
@@ -1521,6 +2078,12 @@ def correspondence(ctx, H, goals, label):
         return
     ndis = 0
     for k, (a, b) in enumerate(zip(impl, out)):
+        if "(xor " in lines[k] and a != b and a.startswith("(ok"):
+            # z3.Or(..., ctx=None) currently raises on xor (the model mirrors that crash); an
+            # implementation that translates xor instead is not compared here (its acceptances are
+            # judged by the oracles)
+            ctx.count("corr:%s:xor-translated-not-compared" % label)
+            continue
         ctx.count("corr:%s:%s" % (label, "agree" if a == b else "DISAGREE"))
         ctx.count("corr:kind:" + (a.split(" ")[0].strip("(") + (":" + a.split(" ")[1].strip(")") if a.startswith("(error") else "")))
         if a != b:
@@ -1584,12 +2147,206 @@ def sympy_check_one(ctx, H, goal, cond, mode, label):
     pt = sympy_counterexample(goal, cond)
     if pt is not None:
         ctx.violation("sympy:accepts-invalid:%s|%s" % (canon(goal), canon(cond) if cond else ""),
-                      "sympywrapper (%s) accepts %s%s, which is false in HOL at x = %s" % (
+                      "sympywrapper (%s) accepts %s%s, which is false in HOL at %s" % (
                           mode, H.term(goal), " under " + str(H.term(cond)) if cond else "", pt),
                       {"kind": "sympy", "goal": tolist(goal), "cond": tolist(cond) if cond else None, "mode": mode, "x": str(pt)})
     else:
         ctx.count("sympy:oracle:no-counterexample-on-grid")
     return True
+
+
+# ---------------------------------------------------------------------------------------------
+# SymPy decision logic: real wrapper vs model (solveGoal / solveWithInterval).  The abstract inputs
+# of the model (which side checks hold, equality of normal forms, what solveset answers) are
+# computed here with SymPy directly, from the goal's syntax tree, without the wrapper.
+# ---------------------------------------------------------------------------------------------
+def ast_to_sympy(a):
+    import sympy
+    k = a[0]
+    e = ast_to_sympy
+    if k == "var":
+        return sympy.Symbol(a[1])
+    if k == "num":
+        return sympy.Rational(a[2], a[3])
+    if k == "add":
+        return e(a[2]) + e(a[3])
+    if k == "sub":
+        return sympy.Max(e(a[2]) - e(a[3]), 0) if a[1] == N else e(a[2]) - e(a[3])
+    if k == "mul":
+        return e(a[2]) * e(a[3])
+    if k == "div":
+        if a[1][0] == "num" and a[2][0] == "num" and a[2][2] == 0 and a[1][3] == 1 and a[2][3] == 1 and a[1][2] >= 0:
+            return sympy.Integer(0)           # the literal n / 0 is the number 0 (dest_number)
+        return e(a[1]) / e(a[2])
+    if k == "neg":
+        return -e(a[2])
+    if k == "abs":
+        return sympy.Abs(e(a[2]))
+    if k == "pow":
+        return e(a[2]) ** a[3]
+    if k == "sqrt":
+        return sympy.sqrt(e(a[1]))
+    if k == "log":
+        return sympy.log(e(a[1]))
+    if k == "exp":
+        return sympy.exp(e(a[1]))
+    if k in ("le", "lt", "ge", "gt"):
+        x, y = e(a[2]), e(a[3])
+        return {"le": x <= y, "lt": x < y, "ge": x >= y, "gt": x > y}[k]
+    raise ValueError(k)
+
+
+def is_hol_number(a):
+    """mirror of Term.is_number on the generated fragment: literals, and p / q in lowest terms"""
+    if a[0] == "num":
+        return True
+    if a[0] == "div" and a[1][0] == "num" and a[2][0] == "num" and a[1][3] == 1 and a[2][3] == 1 and a[1][2] >= 0 and a[2][2] >= 0:
+        import math
+        return a[2][2] != 1 and math.gcd(a[1][2], a[2][2]) == 1
+    return False
+
+
+def side_terms(a, divs, conds):
+    if is_hol_number(a):
+        return
+    if a[0] == "div":
+        divs.append(a[2])
+    if a[0] == "sqrt":
+        conds.append(("nonneg", a[1]))
+    if a[0] == "log":
+        conds.append(("pos", a[1]))
+    for x in a[1:]:
+        if isinstance(x, tuple):
+            side_terms(x, divs, conds)
+
+
+def sympy_model_line(goal, cond):
+    """wire line for the model, or None when the abstract inputs cannot be computed"""
+    import sympy
+    divs, conds = [], []
+    side_terms(goal, divs, conds)
+    kind = "neq" if goal[0] == "not" and goal[1][0] == "eq" else ("eq" if goal[0] == "eq" else "rel")
+    if cond is None:
+        ok = True
+        for d in divs:
+            d = ast_to_sympy(d)
+            ok = ok and bool(d.is_number and d.is_zero is False)
+        for kd, d in conds:
+            d = ast_to_sympy(d)
+            ok = ok and bool(d.is_number) and ((d.is_nonnegative is True) if kd == "nonneg" else (d.is_positive is True))
+        if kind == "neq":
+            diff = sympy.simplify(ast_to_sympy(goal[1][2]) - ast_to_sympy(goal[1][3]))
+            return ["sgoal", "neq", ok, bool(diff.is_number and diff.is_real is True and diff.is_zero is False)]
+        if kind == "eq":
+            l, r = ast_to_sympy(goal[2]), ast_to_sympy(goal[3])
+            return ["sgoal", "eq", ok, 0, 0 if l == r else 1]
+        return ["sgoal", "rel", ok, bool(ast_to_sympy(goal) == True)]  # noqa: E712
+    var = sympy.Symbol("x")
+    interval = (sympy.Interval if cond[0] == "cint" else sympy.Interval.open)(ast_to_sympy(cond[2]), ast_to_sympy(cond[3]))
+    foreign = any(sy[0] == "v" and sy[1] != "x" for sy in free_syms(goal))
+    flags = [not foreign]
+    for d in divs:
+        flags.append(sympy.solveset(ast_to_sympy(d), var, interval) == sympy.EmptySet)
+    for kd, d in conds:
+        d = ast_to_sympy(d)
+        flags.append(sympy.solveset(d >= 0 if kd == "nonneg" else d > 0, var, interval) == interval)
+    if kind == "eq":
+        return ["sinterval", "eq", flags, True]
+    if not all(flags):
+        return ["sinterval", kind, flags, True]        # the main query is not reached
+    if kind == "neq":
+        main = sympy.solveset(ast_to_sympy(goal[1][2]) - ast_to_sympy(goal[1][3]), var, interval) == sympy.EmptySet
+    else:
+        main = sympy.solveset(ast_to_sympy(goal), var, interval) == interval
+    return ["sinterval", kind, flags, bool(main)]
+
+
+def sympy_correspondence(ctx, H, asked):
+    """asked: [(goal, cond, 'accept'|'reject')] answered by the real wrapper in a FRESH cache state"""
+    lines, want, keep = [], [], []
+    for goal, cond, res in asked:
+        try:
+            with time_limit(20):
+                ln = sympy_model_line(goal, cond)
+        except Timeout:
+            raise
+        except Exception as e:  # noqa   (SymPy raises on some relations: the wrapper then fails too)
+            ctx.count("corr:sympy:inputs-not-computable:" + type(e).__name__)
+            continue
+        lines.append(sexp.dumps(ln))
+        want.append("T" if res == "accept" else "F")
+        keep.append((goal, cond))
+    out = ctx.lean_driver(EXE, lines) if lines else []
+    if out is None:
+        ctx.broken("correspondence:c06:driver", "model driver unavailable")
+        return
+    nd = 0
+    for k, (w, o) in enumerate(zip(want, out)):
+        ctx.count("corr:sympy:%s" % ("agree" if w == o else "DISAGREE"))
+        if w != o:
+            nd += 1
+            if nd <= 3:
+                g, c = keep[k]
+                ctx.broken("correspondence:c06:sympy", "goal=%s cond=%s line=%s wrapper=%s model=%s" % (
+                    H.term(g), H.term(c) if c else None, lines[k], w, o))
+
+
+def sympy_history_stage(ctx, H):
+    """The wrapper keeps module-level state (solveset cache): the same goal is asked under the
+    open and the closed interval over the SAME end points, in varied orders within this one
+    process, mixed with related goals over these end points; every acceptance is judged on its own.
+    A violation's replay carries the queries asked before it in its group."""
+    rng = ctx.rng("sympy-history")
+    X = ("var", "x", R)
+    one, zero = num(R, 1), num(R, 0)
+    pool = [0, 1, -1, 2, -2, Fraction(1, 2), Fraction(-1, 2), 3, Fraction(3, 2)]
+    ngroups = ctx.scale(70, 500)
+    nacc = 0
+    for gi in range(ngroups):
+        l, u = sorted(rng.sample(pool, 2))
+        L, U = num(R, l), num(R, u)
+        e = rng.choice([L, U])
+        xe = ("sub", R, X, e)
+        templates = [
+            ("not", ("eq", R, X, e)), ("not", ("eq", R, xe, zero)),
+            ("not", ("eq", R, ("mul", R, ("sub", R, X, L), ("sub", R, X, U)), zero)),
+            ("not", ("eq", R, ("sub", R, ("mul", R, X, X), ("mul", R, e, e)), zero)),
+            ("not", ("eq", R, ("div", one, xe), zero)), ("not", ("eq", R, ("div", xe, xe), zero)),
+            ("not", ("eq", R, ("div", one, ("div", xe, xe)), zero)),
+            ("gt", R, X, L), ("lt", R, X, U), ("ge", R, X, L),
+            ("gt", R, ("mul", R, ("sub", R, X, L), ("sub", R, U, X)), zero),
+            ("ge", R, ("mul", R, ("sub", R, X, L), ("sub", R, U, X)), zero),
+            ("gt", R, ("div", one, ("sub", R, X, L)), zero), ("gt", R, ("abs", R, xe), zero),
+            ("not", ("eq", R, ("abs", R, xe), zero)),
+        ]
+        goal = rng.choice(templates)
+        other = rng.choice(templates)
+        kinds = rng.choice([["oint", "cint"], ["cint", "oint"], ["oint", "cint", "oint", "cint"], ["cint", "oint", "cint"],
+                            ["oint", "oint", "cint"], ["oint", "cint", "cint"]])
+        queries = [(goal, (k, X, L, U)) for k in kinds]
+        if rng.random() < 0.5:
+            queries.insert(rng.randint(0, len(queries)), (other, (rng.choice(["oint", "cint"]), X, L, U)))
+        if rng.random() < 0.3:
+            queries.append((other, (rng.choice(["oint", "cint"]), X, L, U)))
+        history = []
+        for qi, (gl, cond) in enumerate(queries):
+            mode = "macro" if (gi + qi) % 3 == 0 else "direct"
+            res = call_sympy(H, gl, cond, mode)
+            ctx.case(("sympy-h", gi, qi, canon(gl), canon(cond)), nontrivial=True)
+            ctx.count("sympy:history:%s" % (res if not res.startswith("raise") else "fails-with-exception"))
+            if res == "accept":
+                nacc += 1
+                pt = sympy_counterexample(gl, cond)
+                if pt is not None:
+                    ctx.violation("sympy:accepts-invalid:%s|%s" % (canon(gl), canon(cond)),
+                                  "sympywrapper (%s) accepts %s under %s, which is false in HOL at %s (asked after %d related queries in this process)" % (
+                                      mode, H.term(gl), H.term(cond), pt, len(history)),
+                                  {"kind": "sympy", "goal": tolist(gl), "cond": tolist(cond), "mode": mode, "x": str(pt),
+                                   "history": [[tolist(a), tolist(b), m] for a, b, m in history]})
+                else:
+                    ctx.count("sympy:oracle:no-counterexample-on-grid")
+            history.append((gl, cond, mode))
+    ctx.log("sympy history stage: %d groups, %d accepted" % (ngroups, nacc))
 
 
 def run(ctx):
@@ -1619,10 +2376,13 @@ def run(ctx):
         "norm_term's rewriting (kernel conversions with library theorems) and fologic.simplify are not modelled: the model starts from "
         "the terms convert receives; their effect is covered by the oracles only"]
     ctx.assumptions += [
-        "theorems are about the code with fixes/C06-1..8.patch applied; on the unfixed tree the oracle reports the defects as violations",
+        "theorems are about the code with fixes/C06-1..11.patch applied; on a tree without them the oracle reports the defects as violations",
         "solve_sound_partial assumes the valuation reads auxiliary constants as intended (freshness of generated names not proved in Lean)",
         "Z3 timeouts (2 s quick / 4 s thorough, set in the harness process) count as rejections",
-        "SymPy: transcendental functions, sqrt and real powers are outside the explored fragment (their HOL values off-domain are unspecified)"]
+        "SymPy: sqrt (total in the library: sgn(x)*sqrt|x|), exp and log (arbitrary for arguments <= 0) are judged at exact points and "
+        "numerically (mpmath, 50 digits, margin 1e-30) elsewhere; trigonometric functions and real powers are generated only through the "
+        "wrapper's tests, not by the oracle stream",
+        "uminus on nat is declared in the library but unspecified: the oracles treat it as an arbitrary function nat => nat"]
     H = Holpy(ctx)
     H.z3.set_param("timeout", ctx.scale(2000, 4000))
     flag_checks(ctx, H)
@@ -1647,13 +2407,35 @@ def run(ctx):
         ctx.sample({"z3_goal": str(H.term(x))})
     n = z3_check_goals(ctx, H, goals, ctx.rng("z3-oracle"), "gen")
     ctx.log("z3 stage: %d goals, %d accepted" % (len(goals), n))
-    # 4. SymPy oracle stream
-    sympy_stage(ctx, H)
+    gd = G(ctx.rng("z3-directed"))
+    dgoals = []
+    for _ in range(ctx.scale(220, 700)):
+        x = gd.directed()
+        try:
+            H.term(x).checked_get_type()
+            dgoals.append(x)
+        except Exception as e:  # noqa
+            ctx.count("z3:directed:not-a-term:" + type(e).__name__)
+    ctx.sample({"z3_directed_goal": str(H.term(dgoals[0]))})
+    n = z3_check_goals(ctx, H, dgoals, ctx.rng("z3-oracle-directed"), "directed")
+    ctx.log("z3 directed stage: %d goals, %d accepted" % (len(dgoals), n))
+    # 4. SymPy oracle streams
+    asked = sympy_stage(ctx, H)
+    sympy_history_stage(ctx, H)
+    sympy_correspondence(ctx, H, asked)
     # 5. correspondence with the model
-    correspondence(ctx, H, cz + goals, "gen")
+    correspondence(ctx, H, cz + goals + dgoals, "gen")
     must = ["z3:gen:accept", "z3:gen:reject", "z3:oracle:valid-by-oracle", "sympy:plain:accept", "sympy:interval:accept", "corr:gen:agree",
             "corr:kind:error:z3exc"]
+    if ctx.coverage.get("correspondence_unavailable"):
+        must = [m for m in must if not m.startswith("corr:")]
     missing = [m for m in must if not ctx.coverage["histogram"].get(m)]
+    h = ctx.coverage["histogram"]
+    unknown = {k: v for k, v in h.items() if k.startswith("z3:oracle:no-countermodel-found")}
+    ctx.coverage["oracle_undecided"] = {"accepted_goals_not_decided_by_the_independent_oracle": sum(unknown.values()), "by_reason": unknown,
+                                        "accepted_goals_confirmed_valid": h.get("z3:oracle:valid-by-oracle", 0)}
+    ctx.log("ORACLE: %d accepted Z3 goals confirmed valid, %d NOT decided by the independent oracle %s" % (
+        h.get("z3:oracle:valid-by-oracle", 0), sum(unknown.values()), unknown))
     if missing:
         ctx.broken("coverage:c06", "branches never reached: %s" % missing)
 
@@ -1666,6 +2448,8 @@ def replay(ctx, rp):
     if r.get("kind") == "z3":
         z3_check_goals(ctx, H, [totuple(r["goal"])] * 5 if r.get("via_macro") else [totuple(r["goal"])], ctx.rng("replay"), "replay")
     elif r.get("kind") == "sympy":
+        for a, b, m in r.get("history", []):
+            call_sympy(H, totuple(a), totuple(b) if b else None, m)
         sympy_check_one(ctx, H, totuple(r["goal"]), totuple(r["cond"]) if r.get("cond") else None, r.get("mode", "direct"), "replay")
     elif r.get("kind") == "flag":
         flag_checks(ctx, H)
@@ -1675,15 +2459,21 @@ def replay(ctx, rp):
 
 
 MANIFEST = {
-    "text": "Lean model of z3wrapper.convert/solve_core (with the Python-level literal folding, z3py operand reflection, side tables) and of "
-            "the sympywrapper decision logic; theorems: convert preserves meaning exactly (all polarities, quantifiers, for every ordered "
-            "field and every interpretation), nat binders are relativised correctly, solve is sound when Z3's unsat is right (partial: "
-            "freshness of generated names), SymPy acceptance logic sound for an abstract value-preserving normaliser. Tied to the code by "
-            "differential runs of solve_core against the model and by regenerating norm_thms/check_z3. Every acceptance of the real "
-            "wrappers is judged by an independent encoding + exact evaluation + brute force (Z3) and by rational grid search (SymPy).",
-    "note": "Trusted: Lean kernel, Z3 and SymPy themselves, the harness (generators, term reader, independent encoding, evaluator), "
-            "norm_term/fologic.simplify (oracle-covered only). Theorems hold for the tree with fixes/C06-1..8.patch; the pinned tree "
-            "violates the property in eight ways (see FINDINGS).",
+    "text": "Z3 half: Lean model of z3wrapper.convert/solve_core (Python-level literal folding, z3py operand reflection, side tables); "
+            "theorems: convert preserves meaning exactly (all polarities, quantifiers, every ordered field and interpretation, arbitrary "
+            "values for untranslatable subterms and for uminus on nat), nat binders are relativised correctly, solve is sound when Z3's "
+            "unsat is right (partial: freshness of generated names). Tied to the code by differential runs of solve_core against the model "
+            "and by regenerating norm_thms/check_z3. Every acceptance of the real wrapper is judged by an independent encoding + exact "
+            "evaluation + brute force. SymPy half: ORACLE-JUDGED (every acceptance of solve_goal / solve_with_interval / the macro, also "
+            "under varied query histories within one process, is checked on rational grids with HOL semantics); the Lean side has only "
+            "theorems about the acceptance logic for an ABSTRACT value-preserving normaliser; solveGoal / solveWithInterval are tied to "
+            "the wrapper only at the level of that logic (their abstract inputs -- side checks, equality of normal forms, solveset answers "
+            "-- are recomputed by the harness with SymPy and the verdicts compared), their divisor arguments carry no proof obligation.",
+    "note": "Trusted: Lean kernel, Z3 and SymPy themselves, the harness (generators, term reader, independent encoding, evaluators), "
+            "norm_term/fologic.simplify (oracle-covered only; multi-argument functions are not generated: the wrapper crashes on them). "
+            "check_z3_off_unsound, untranslatable_conclusion_not_negated and stdQuant_std restate definitions (pins, not properties). "
+            "Accepted goals the independent oracle could not decide are counted in evidence coverage.oracle_undecided. Theorems hold for the "
+            "tree with fixes/C06-1..11.patch.",
     "design_ref": "DESIGN.md 4/C06",
 }
 FINDINGS = [
@@ -1703,4 +2493,10 @@ FINDINGS = [
      "what": "solve_goal(x / x = 1), solve_with_interval(x / x >= 1, x Mem [0,1]), solve_with_interval(~(1 / x = 0), x Mem [-1,1]) returned True: SymPy's x/x = 1 and 1/0 = zoo against HOL's x / 0 = 0"},
     {"status": "fixed", "key": "z3:real-literals-as-python-numbers", "commit": "928e63b",
      "what": "solve((if p then (1::real) else 3) / 2 = (if p then 0 else 1)) returned True (integer division on sort Int) and solve(~((2::real) / 6 = 1 / 3)) returned True (Python float division)"},
+    {"status": "fixed", "key": "z3:uminus-on-nat", "commit": "fixes/C06-9.patch",
+     "what": "solve(x > 0 --> -x < 0) returned True for x :: nat: uminus (declared at every type, unspecified on nat) was translated as integer negation"},
+    {"status": "fixed", "key": "sympy:foreign-variable", "commit": "fixes/C06-10.patch",
+     "what": "with x Mem real_closed_interval 0 1 the sympy step proved y / y > 0, ~(1 / y = 0), 1 / y * y >= 1 (false at y = 0): divisors were checked for zeros in x only"},
+    {"status": "fixed", "key": "sympy:sqrt-log-domains", "commit": "fixes/C06-11.patch",
+     "what": "solve_goal proved sqrt(-1) * sqrt(-1) = -1, sqrt x * sqrt x = x, exp(log x) = x, x ^ (1/2) * x ^ (1/2) = x: SymPy's complex sqrt/log against the library's total real functions"},
 ]
